@@ -952,7 +952,7 @@ func genTreeCase(t *rapid.T) TreeCase {
 	return c
 }
 
-const ruleC11 = "histories of 1..40 operations on part.Tree (both watch modes; sparse alphabet {00,01,61,ff} len 0..4, nested words (a, ab, abc, abd, ...) or dense fan-out keys with range inserts/deletes crossing the 4/16/48 child thresholds): main-line notified transactions, un-notified branches off any earlier version, abandoned transactions, one-shot ops, reads, clones and partially consumed iterators retained across later writes; every result compared with a sorted-map model and every retained tree/clone/iterator re-read after every step. Non-trivial = a transaction that mixes inserts and deletes, crosses a node-size threshold and has a clone or iterator taken mid-transaction that is re-checked afterwards; distinct by case encoding."
+const ruleC11 = "histories of 1..40 operations on part.Tree (both watch modes; sparse alphabet {00,01,61,ff} len 0..4, nested words (a, ab, abc, abd, ...), dense fan-out keys with range inserts/deletes crossing the 4/16/48 child thresholds, or chains of nested keys c, cc, ccc, ... up to 60 levels deep): main-line notified transactions, un-notified branches off any earlier version, abandoned transactions, one-shot ops, reads, clones and partially consumed iterators retained across later writes; every result compared with a sorted-map model and every retained tree/clone/iterator re-read after every step. Non-trivial = a transaction that mixes inserts and deletes, crosses a node-size threshold and has a clone or iterator taken mid-transaction that is re-checked afterwards; distinct by case encoding."
 
 const ruleC12 = "same histories as C11 with watch-channel bookkeeping: channels from RootWatch/Get/Prefix of the main-line head and of the in-flight main-line transaction and from InsertWatch/ModifyWatch are retained; after each notified transaction the previous root channel must be closed iff a key was successfully changed, Get(k)/InsertWatch(k) channels closed if k changed, Prefix(p) channels closed if a key below p changed; nothing may be closed at hand-out, between Commit and Notify, by an un-notified branch or by an abandoned transaction. Non-trivial = a case with a notified dirty transaction while at least one channel for an absent key or prefix was retained, plus a threshold crossing; distinct by case encoding."
 
